@@ -36,7 +36,10 @@ Cols(s)  == SumSeq(Splits[s].nt) + SumSeq(Splits[s].nte)
 \* Path-loss id 3 has the user part of id 1 and the external-interference part of id 2 (changing only one part).
 MainOf(p) == IF p = 3 THEN 1 ELSE p
 ExtOf(p)  == IF p = 3 THEN 2 ELSE p
-Amp(p, k, l)  == IF p = 0 THEN ROne ELSE <<1, 1 + ((2 * k + 3 * l + MainOf(p)) % 4)>>     \* user l -> user k
+\* (path-loss matrix 2 has one entry that is exactly zero: a link that is completely blocked)
+Amp(p, k, l)  == IF p = 0 THEN ROne
+                 ELSE IF MainOf(p) = 2 /\ k = 1 /\ l = 2 THEN RZero
+                 ELSE <<1, 1 + ((2 * k + 3 * l + MainOf(p)) % 4)>>     \* user l -> user k
 AmpE(p, k, e) == IF p = 0 THEN ROne ELSE <<1, 2 + ((k + 2 * e + ExtOf(p)) % 3)>>          \* ext source e -> user k
 PlMain(p, s)  == [k \in 1..KOf(s) |-> [l \in 1..KOf(s) |-> RSq(Amp(p, k, l))]]
 PlExt(p, s)   == [k \in 1..KOf(s) |-> [e \in 1..Len(Splits[s].nte) |-> RSq(AmpE(p, k, e))]]
